@@ -31,6 +31,10 @@ type recW struct {
 
 func (w *recW) Header() http.Header { return w.h }
 func (w *recW) WriteHeader(code int) {
+	if code < 100 || code > 999 {
+		// what net/http's writer (and httptest's recorder) do
+		panic(fmt.Sprintf("invalid WriteHeader code %v", code))
+	}
 	w.log = append(w.log, fmt.Sprintf("WH:%d:%s", code, w.h.Get("X-A")))
 }
 func (w *recW) Write(b []byte) (int, error) {
